@@ -88,6 +88,7 @@ type Exec struct {
 	allocOrder     map[*Term]int
 	bounded        map[*Term]bool
 	wholeCopy      map[*Term]wholeCopy
+	sweep          bool
 	localFieldRefs []localField
 	noExpand       int
 	typeIDs        map[string]int
@@ -163,6 +164,15 @@ func (ex *Exec) fnName(fn *ssa.Function) string {
 func (ex *Exec) oblige(st *State, kind, detail string, goal *Term, pos string) *Obligation {
 	if ex.noOblige > 0 {
 		return nil
+	}
+	if ex.sweep {
+		// sweep mode keeps only the arithmetic / bounds safety conditions; everything else is assumed to hold
+		switch kind {
+		case "nopanic.index", "nopanic.slice", "nopanic.div", "nopanic.makeslice", "nopanic.typeassert", "nopanic.shift", "nopanic.conv":
+		default:
+			ex.assume(st, goal)
+			return nil
+		}
 	}
 	if goal.IsTrue() || st.pc.IsFalse() {
 		// trivially discharged; still counted so that the inventory is stable
@@ -519,6 +529,9 @@ func (ex *Exec) execLoop(fr *frame, l *Loop, in []edge) []edge {
 		spec = fr.fc.Loops[l.Ordinal]
 	}
 	pos := ex.P.pos(loopPos(l))
+	if spec == nil && ex.sweep {
+		spec = &LoopSpec{} // sweep mode: cut the loop with the trivial invariant
+	}
 	if spec == nil {
 		ex.fail("loop %d of %s (%s) has neither invariant nor unroll", l.Ordinal, ex.fnName(fr.fn), pos)
 	}
